@@ -1,7 +1,7 @@
 (* ImpFactsRead.v - sbdf_read_string of src/internals.c from the source: a stream (the pseudo-variable
    "$strm") read INTO freshly allocated memory.  sbdf_read_int32 is re-proved for frames whose stream
    is separate from the memory. *)
-From Sbdf Require Import ImpCall Gen.Prog Gen.Consts Base Prim BaseFacts PrimFacts ImpFacts ImpFacts7 ImpFactsFrame ImpFactsCmp ImpFactsHeap.
+From Sbdf Require Import ImpCall Gen.Prog Gen.Consts Base Prim BaseFacts PrimFacts ImpBase ImpFactsSwapNoop ImpFactsInt32 ImpFactsHeap.
 From Coq Require Import ZifyBool.
 Local Open Scope Z_scope.
 Ltac Zify.zify_post_hook ::= Z.div_mod_to_equations.
@@ -17,7 +17,6 @@ Ltac evcr := cbn [prog_env eval_args callee_init finish_call copy_in copy_out tr
 Definition ri2 (fv pv cell bv : val) (k : Z) (sx m o : list Z) : state :=
   {| vars := [("f"%string, fv); ("v"%string, pv); ("*v"%string, cell); (budget_var, bv); (fail_var, VInt k); (strm_var, VBytes sx)]; inb := m; outb := o |}.
 
-Definition is_ptr (v : val) : Prop := match v with VPtr _ _ => True | _ => False end.
 
 Lemma read_int32_bs2 fv pv cell bv k sx m o : is_ptr fv -> is_ptr pv -> Forall byte sx ->
   match read_int32 false sx with
@@ -64,20 +63,9 @@ Proof.
   - reflexivity.
 Qed.
 
-Lemma upd_nth_length i x : forall l, List.length (upd_nth i x l) = List.length l.
-Proof. induction i as [|i IH]; intros [|y l]; cbn [upd_nth List.length]; try reflexivity. now rewrite IH. Qed.
 
-Lemma upd_range_length xs : forall i l, List.length (upd_range i xs l) = List.length l.
-Proof. induction xs as [|x xs IH]; intros i l; cbn [upd_range]; [reflexivity|]. now rewrite IH, upd_nth_length. Qed.
 
-Lemma upd_nth_app_r (m : list Z) i x X : upd_nth (List.length m + i) x (m ++ X) = m ++ upd_nth i x X.
-Proof. induction m as [|y m IH]; cbn [List.length app upd_nth Nat.add]; [reflexivity|]. now rewrite IH. Qed.
 
-Lemma upd_range_app_r (m : list Z) xs : forall i X, upd_range (List.length m + i) xs (m ++ X) = m ++ upd_range i xs X.
-Proof.
-  induction xs as [|x xs IH]; intros i X; cbn [upd_range]; [reflexivity|].
-  rewrite upd_nth_app_r. replace (S (List.length m + i)) with (List.length m + S i)%nat by lia. apply IH.
-Qed.
 
 Ltac pre RI :=
   (eapply bsE_seq; [eapply bsE_decl0; evr; reflexivity|]); (eapply bsE_seq; [eapply bsE_decl0; evr; reflexivity|]); (eapply bsE_seq; [eapply bsE_decl0; evr; reflexivity|]);
@@ -102,7 +90,7 @@ Proof.
   pose proof (read_int32_bs2 (VPtr fr fo) cell_token VUndef bv k sx m o I I Hs) as RI. rewrite Hr in RI.
   assert (Hn : int_min <= n <= int_max).
   { rewrite read_int32_model in Hr. destruct sx as [|b0 [|b1 [|b2 [|b3 r]]]]; try discriminate. injection Hr as <- _.
-    apply ImpFactsFrame.de32_range; [|reflexivity].
+    apply ImpBase.de32_range; [|reflexivity].
     inversion Hs as [|? ? G0 Q0]; inversion Q0 as [|? ? G1 Q1]; inversion Q1 as [|? ? G2 Q2]; inversion Q2 as [|? ? G3 Q3]. repeat (constructor; [assumption|]). constructor. }
   unfold int_min, int_max in Hn.
   destruct (n <? 0) eqn:En.
@@ -200,7 +188,7 @@ Proof.
   destruct (read_int32 false sx) as [[n s']|e] eqn:Hr.
   - assert (Hn : int_min <= n <= int_max).
     { rewrite read_int32_model in Hr. destruct sx as [|b0 [|b1 [|b2 [|b3 r]]]]; try discriminate. injection Hr as <- _.
-      apply ImpFactsFrame.de32_range; [|reflexivity].
+      apply ImpBase.de32_range; [|reflexivity].
       inversion Hs as [|? ? G0 Q0]; inversion Q0 as [|? ? G1 Q1]; inversion Q1 as [|? ? G2 Q2]; inversion Q2 as [|? ? G3 Q3]. repeat (constructor; [assumption|]). constructor. }
     destruct (Z.eq_dec n int_max) as [->|Hne].
     + destruct (read_string_bs_max tok tok VUndef VUndef VUndef VUndef VUndef (VInt 0) k sx m [] s' I I Hs Hr) as (fin & B & P).
